@@ -13,3 +13,5 @@ CONSTANTS
   CollOf <- CollOf3
   JoinLifts = TRUE
   StartAllFirst = FALSE
+  PChanOf <- PChanSame
+  InitRaises = TRUE
